@@ -16,7 +16,7 @@ func funcToLowerVec(chunk []KVPair, args []Expression, ctx *ExecuteCtx) ([]any, 
 	)
 	for i := 0; i < len(chunk); i++ {
 		arg := toString(rarg[i])
-		ret[i] = strings.ToLower(arg)
+		ret[i] = toLowerString(arg)
 	}
 	return ret, nil
 }
@@ -31,7 +31,7 @@ func funcToUpperVec(chunk []KVPair, args []Expression, ctx *ExecuteCtx) ([]any, 
 	)
 	for i := 0; i < len(chunk); i++ {
 		arg := toString(rarg[i])
-		ret[i] = strings.ToUpper(arg)
+		ret[i] = toUpperString(arg)
 	}
 	return ret, nil
 }
